@@ -27,7 +27,7 @@ import (
 // constants): K bytes per input byte plus one maximal var-bytes buffer.
 const (
 	boundK = 600
-	boundC = 16*1024*1024 + 64*1024
+	boundC = 40*1024*1024 + 64*1024
 )
 
 func decodeOnce(t []string, b []byte) {
